@@ -7,8 +7,9 @@ x neighbours) are concretised over valid base files of every kind: every truncat
 sample (quick), single- and multi-byte corruptions in magic / header / trailer / payload classes, random byte strings
 of assorted lengths, valid content under every mismatching name, container-level faults (good gzip member followed by
 trailing bytes or further members with a size trailer that claims less / as much / more than the member holds, streams
-back to back, tar archives cut or extended or with a member size beyond the archive), alone and next to 1..3 valid
-sources."""
+back to back, tar archives cut or extended or with a member size beyond the archive), well-formed text logs whose
+messages are out of chronological order (five notations incl. year-less and Unix-epoch forms), alone and next to 1..3
+valid sources."""
 import os
 import random
 import shutil
@@ -128,6 +129,39 @@ def structural(name, data, kind):
         yield ("tar-size-beyond-checksum-ok", bytes(b), name)
 
 
+def disorder(rng, tier):
+    """well-formed text logs whose messages are NOT in chronological order (reversed, shuffled, one jump of > 1 year
+    backwards / forwards, alternating far past / far future), in several timestamp notations incl. year-less syslog and
+    Unix-epoch forms: arbitrary content as far as the merge is concerned; the run must still end promptly"""
+    import calendar
+    import time as _t
+    base = 1_700_000_000
+    def render(nota, sec, i):
+        tt = _t.gmtime(sec)
+        if nota == "rfc3339":
+            return "%04d-%02d-%02dT%02d:%02d:%02d+00:00 dis idx=%d" % (tt.tm_year, tt.tm_mon, tt.tm_mday, tt.tm_hour, tt.tm_min, tt.tm_sec, i)
+        if nota == "syslog":
+            return "%s %2d %02d:%02d:%02d host dis[1]: idx=%d" % (calendar.month_abbr[tt.tm_mon], tt.tm_mday, tt.tm_hour, tt.tm_min, tt.tm_sec, i)
+        if nota == "epoch_s":
+            return "%d dis idx=%d" % (sec, i)
+        if nota == "epoch_ms":
+            return "%d.%03d dis idx=%d" % (sec, i % 1000, i)
+        return "%04d/%02d/%02d %02d:%02d:%02d dis idx=%d" % (tt.tm_year, tt.tm_mon, tt.tm_mday, tt.tm_hour, tt.tm_min, tt.tm_sec, i)
+    n = 12 if tier == "quick" else 40
+    chron = [base + 3600 * 7 * i for i in range(n)]
+    orders = {"reversed": chron[::-1], "shuffled": rng.sample(chron, n),
+              "jump-back": chron[: n // 2] + [c - 500 * 86400 for c in chron[n // 2:]],
+              "jump-forward": chron[: n // 2] + [c + 500 * 86400 for c in chron[n // 2:]],
+              "alternating": [c + (900 * 86400 if i % 2 else -900 * 86400) for i, c in enumerate(chron)],
+              "two-lines-back": [base + 40 * 86400, base]}
+    for nota in ("rfc3339", "syslog", "epoch_s", "epoch_ms", "slash"):
+        for mode, secs in orders.items():
+            data = "".join(render(nota, sec, i) + "\n" for i, sec in enumerate(secs)).encode()
+            yield ("text", "disorder:%s:%s" % (nota, mode), data, "dis.log")
+            if mode in ("shuffled", "two-lines-back"):
+                yield ("text.gz", "disorder:%s:%s" % (nota, mode), gen.gz_bytes(data), "dis.log.gz")
+
+
 def faults(name, data, kind, tier, rng):
     """yield (fault label, faulted bytes, file name)"""
     n = len(data)
@@ -211,6 +245,7 @@ def run(pid, tier, seed):
                 plans.append((kind, "misnamed:" + mis, data, mis))
         if len(plans) > 3 * budget:
             plans = rng.sample(plans, 3 * budget)
+        plans += list(disorder(rng, tier))
         for kind, label, fdata, fname in plans:
             k = rng.choice([0, 0, 1, 2, 3])
             ns = neigh[:k]
@@ -247,6 +282,8 @@ def run(pid, tier, seed):
             fc = label.split("@")[0].rstrip("0123456789") if not label.startswith("misnamed") else "misnamed"
             if fc.startswith(("gz-", "tar", "two-streams", "stream+")):
                 fc = "structural"
+            if fc.startswith("disorder"):
+                fc = ":".join(label.split(":")[:2])
             distinct.add((kind, label, case.note["neighbours"]))
             if rr.timed_out:
                 rep.violation("hang:%s:%s" % (kind, fc), "no exit within %.0fs (%s, %s)" % (WALL_BOUND_S, kind, label), case.replay_record(rr))
